@@ -154,6 +154,10 @@ pub fn val_s(p: &Profile) -> BoxedStrategy<B> {
     if p.big {
         alts.push((
             1,
+            (4096u32..9000, any::<u8>()).prop_map(|(len, seed)| B::Z { len, seed }).boxed(),
+        ));
+        alts.push((
+            1,
             (8192u32..40_000, any::<u8>(), any::<bool>())
                 .prop_map(|(len, seed, rnd)| B::R { len, seed, rnd })
                 .boxed(),
